@@ -321,7 +321,11 @@ def real_groups(tier, seed):
             else:
                 sizes = [(s, n) for n in list(range(1, 21)) + [32, 33] for s in STRATS] + [("simple", 64), ("simple", 65), ("simplepiv", 65)]
             for (s, n) in sizes:
-                fams = (0, 1, 2) if s in PIV else ((0, 1) if s not in ("ut", "lut") else (0,))
+                # family 1 (symmetric positive definite, prescribed condition number) keeps every leading block and Schur
+                # complement well conditioned only WITHOUT row exchanges: Fastor's pivot vector (column maxima of the
+                # original matrix) can turn it into a matrix with badly conditioned leading blocks, which is outside the
+                # property's hypothesis — pivoted strategies get the families whose pre-pivoted form is dominant
+                fams = (0, 2) if s in PIV else ((0, 1) if s not in ("ut", "lut") else (0,))
                 for f in fams:
                     calls.append("run_real<%s,c10r::%s,%d>(%d,%du);" % (t, S[s], n, f, rng.randrange(1, 1 << 30)))
             if tier != "quick" or True:
